@@ -2,7 +2,7 @@
    written by the harness.  A case is what the REAL ConfirmSmoother did:
      (e0, steps, observed)    steps    : (tag, multiple, ack, take) ; take = None: all
                               observed : items yielded per step, (tag, multiple, ack)  *)
-From Amq Require Import Lib.Base Model.Confirm Spec.Confirm.
+From Amq Require Export Lib.Base Model.Confirm Spec.Confirm.
 
 Definition cstep := (N * bool * bool * option N)%type.
 Definition cout := (N * bool * bool)%type.
